@@ -382,7 +382,7 @@ def c10c(ctx):
 def c10d(ctx):
     fn = ctx.fn('mapproxy/util/coverage.py:load_limited_to')
     rets = returns_of(fn.node)
-    ok = bool(rets) and all(isinstance(r.value, ast.Call) and const_value(keyword(r.value, 'clip')) is True for r in rets)
+    ok = bool(rets) and all(isinstance(r.value, ast.Call) and const_value(keyword(r.value, 'clip', 2)) is True for r in rets)
     ctx.check(ok, 'load_limited_to:clip', 'load_limited_to returns a coverage constructed with clip=True on every path', fn,
               fail='load_limited_to can return a coverage that does not clip: a limited layer is rendered in full')
     for m in ('_render_raise_exceptions', '_render_capture_source_errors'):
